@@ -370,14 +370,12 @@ func explainCreateQuery(sb *strings.Builder, n *ast.CreateQuery, indent string, 
 	}
 	// For materialized views, output AsSelect before storage definition
 	if n.Materialized && n.AsSelect != nil {
-		// Set context flag to prevent Format from being output at SelectWithUnionQuery level
+		// Render the SELECT without its FORMAT clause so that it is not output at SelectWithUnionQuery level
 		// (it will be output at CreateQuery level instead)
 		if hasFormat {
-			inCreateQueryContext = true
-		}
-		Node(sb, n.AsSelect, depth+1)
-		if hasFormat {
-			inCreateQueryContext = false
+			Node(sb, withoutFormat(n.AsSelect), depth+1)
+		} else {
+			Node(sb, n.AsSelect, depth+1)
 		}
 	}
 	// For WINDOW VIEW with INNER ENGINE, ORDER BY goes inside ViewTargets
@@ -560,11 +558,9 @@ func explainCreateQuery(sb *strings.Builder, n *ast.CreateQuery, indent string, 
 	// For window views, output AsSelect before ViewTargets
 	if n.WindowView && n.AsSelect != nil {
 		if hasFormat {
-			inCreateQueryContext = true
-		}
-		Node(sb, n.AsSelect, depth+1)
-		if hasFormat {
-			inCreateQueryContext = false
+			Node(sb, withoutFormat(n.AsSelect), depth+1)
+		} else {
+			Node(sb, n.AsSelect, depth+1)
 		}
 	}
 	// For window views with INNER ENGINE, output ViewTargets with Storage definition
@@ -609,15 +605,13 @@ func explainCreateQuery(sb *strings.Builder, n *ast.CreateQuery, indent string, 
 	}
 	// For non-materialized views, output AsSelect after storage
 	if n.AsSelect != nil && !n.Materialized && !n.WindowView {
-		// Set context flag to prevent Format from being output at SelectWithUnionQuery level
+		// Render the SELECT without its FORMAT clause so that it is not output at SelectWithUnionQuery level
 		// (it will be output at CreateQuery level instead)
 		if hasFormat {
-			inCreateQueryContext = true
-		}
-		// AS SELECT is output directly without Subquery wrapper
-		Node(sb, n.AsSelect, depth+1)
-		if hasFormat {
-			inCreateQueryContext = false
+			Node(sb, withoutFormat(n.AsSelect), depth+1)
+		} else {
+			// AS SELECT is output directly without Subquery wrapper
+			Node(sb, n.AsSelect, depth+1)
 		}
 	}
 	if n.AsTableFunction != nil {
